@@ -36,6 +36,7 @@ class State:
 
 
 ST = State()
+RESET_HOOKS: list = []  # deterministic naming: counters restart with every path
 
 
 def reset(facts=()):
@@ -49,6 +50,8 @@ def reset(facts=()):
     ST.kernel_calls = []
     ST.obligations = []
     ST.denoms = {}
+    for h in RESET_HOOKS:
+        h()
     for f in facts:
         assume(f)
 
